@@ -184,3 +184,62 @@ func vfFSCount() int {
 	})
 	return n
 }
+
+
+func vfShiftWalk(a, b reflect.Value, delta token.Pos, seen map[[2]uintptr]bool) bool {
+	if a.Type() != b.Type() {
+		return false
+	}
+	if a.Type() == reflect.TypeOf(token.Pos(0)) {
+		p, q := token.Pos(a.Int()), token.Pos(b.Int())
+		if p == 0 {
+			return q == 0
+		}
+		return q == p+delta
+	}
+	switch a.Kind() {
+	case reflect.Ptr:
+		if a.IsNil() || b.IsNil() {
+			return a.IsNil() == b.IsNil()
+		}
+		k := [2]uintptr{a.Pointer(), b.Pointer()}
+		if seen[k] {
+			return true
+		}
+		seen[k] = true
+		return vfShiftWalk(a.Elem(), b.Elem(), delta, seen)
+	case reflect.Interface:
+		if a.IsNil() || b.IsNil() {
+			return a.IsNil() == b.IsNil()
+		}
+		return vfShiftWalk(a.Elem(), b.Elem(), delta, seen)
+	case reflect.Struct:
+		for i := 0; i < a.NumField(); i++ {
+			if !vfShiftWalk(a.Field(i), b.Field(i), delta, seen) {
+				return false
+			}
+		}
+		return true
+	case reflect.Slice:
+		if a.IsNil() != b.IsNil() || a.Len() != b.Len() {
+			return false
+		}
+		for i := 0; i < a.Len(); i++ {
+			if !vfShiftWalk(a.Index(i), b.Index(i), delta, seen) {
+				return false
+			}
+		}
+		return true
+	case reflect.Map, reflect.Func, reflect.Chan:
+		return true
+	}
+	return reflect.DeepEqual(a.Interface(), b.Interface())
+}
+
+// vfPosShifted: b equals a except that every token.Pos p != NoPos of a is p+delta in b.
+func vfPosShifted(a, b interface{}, delta int) bool {
+	if a == nil || b == nil {
+		return a == nil && b == nil
+	}
+	return vfShiftWalk(reflect.ValueOf(a), reflect.ValueOf(b), token.Pos(delta), map[[2]uintptr]bool{})
+}
